@@ -57,10 +57,35 @@ def groups_of_the_map(ix):
                   and any(isinstance(x, ast.Name) and x.id == g for x in ast.walk(s.value))]
         if stores:
             loops.append(n)
-    if len(loops) != 1:
-        raise AnalysisError(f"{IC}:_create_commute_function: expected one `for group in [...]` loop filling the map, found {len(loops)}")
+    def _listing(e):
+        """the list/tuple display of group names, directly or through a local bound once to such a display"""
+        if isinstance(e, (ast.List, ast.Tuple)):
+            return e
+        if isinstance(e, ast.Name):
+            defs = [s.value for s in ast.walk(f.node) if isinstance(s, ast.Assign) and len(s.targets) == 1 and isinstance(s.targets[0], ast.Name)
+                    and s.targets[0].id == e.id]
+            if len(defs) == 1 and isinstance(defs[0], (ast.List, ast.Tuple)):
+                return defs[0]
+        return None
+    listing = None
+    if len(loops) == 1:
+        listing = loops[0].iter
+    else:
+        # the same table written as a comprehension: {name: group for group in <groups> for name in group}
+        for n in ast.walk(f.node):
+            if isinstance(n, ast.DictComp) and len(n.generators) == 2 and isinstance(n.generators[0].target, ast.Name) \
+                    and isinstance(n.generators[1].iter, ast.Name) and n.generators[1].iter.id == n.generators[0].target.id \
+                    and isinstance(n.value, ast.Name) and n.value.id == n.generators[0].target.id and _listing(n.generators[0].iter) is not None:
+                listing = _listing(n.generators[0].iter)
+        if listing is None:
+            for n in ast.walk(f.node):
+                if isinstance(n, ast.For) and isinstance(n.target, ast.Name) and isinstance(n.iter, ast.Name) and _listing(n.iter) is not None and any(
+                        isinstance(s_, ast.Assign) and isinstance(s_.targets[0], ast.Subscript) for s_ in ast.walk(n)):
+                    listing = _listing(n.iter)
+    if listing is None:
+        raise AnalysisError(f"{IC}:_create_commute_function: the loop / comprehension over the group list that fills the map was not found")
     out = []
-    for e in loops[0].iter.elts:
+    for e in listing.elts:
         if not isinstance(e, ast.Name):
             raise AnalysisError(f"{IC}:_create_commute_function: group list holds a non-name: {ast.unparse(e)[:40]}")
         vals = m.all_assigns.get(e.id, [])
@@ -466,6 +491,9 @@ def check(ctx):
     rep.floor("module-level group tables (displays of names)", n_tables, 8)
     filled = {norm(st.targets[0].value) for n in ast.walk(f.node) if isinstance(n, ast.For) for st in ast.walk(n)
               if isinstance(st, ast.Assign) and len(st.targets) == 1 and isinstance(st.targets[0], ast.Subscript)}
+    # the same mapping built by a comprehension `{name: group for group in groups for name in group}` bound to a local
+    filled |= {st.targets[0].id for st in ast.walk(f.node) if isinstance(st, ast.Assign) and len(st.targets) == 1 and isinstance(st.targets[0], ast.Name)
+               and isinstance(st.value, ast.DictComp) and len(st.value.generators) == 2}
     rep.floor("mappings filled from the group tables (by reference or by copy)", len(filled), 1)
     rep.note(f"mappings holding group tables by reference: {n_holders}")
     rep.floor("groups in the commutation_map loop", len(groups), 5)
